@@ -124,6 +124,85 @@ def check_emission(ctx, model, tup, cov):
             })
 
 
+class _FailingData(io.BytesIO):
+    """payload stream whose k-th read() fails (the image file disappears / EIO while the transmission is under way)"""
+
+    def __init__(self, data, fail_at, exc):
+        super().__init__(data)
+        self.fail_at, self.exc, self.reads = fail_at, exc, 0
+
+    def read(self, *a):
+        self.reads += 1
+        if self.reads == self.fail_at:
+            raise self.exc
+        return super().read(*a)
+
+
+def check_faulted(ctx, model, tup, cov):
+    """A chunked transmission that FAILS under way (the payload stream raises, the per-chunk callback raises, the process
+    is interrupted): whatever reached the command stream with n layers configured must still be, write for write, the
+    n-fold wrapping of what reaches it with no tmux configured under the same fault — nothing bare, nothing extra."""
+    gc = tup.graphics_command
+    GT = tup.graphics_terminal.GraphicsTerminal
+    rng = ctx.rng
+
+    def attempt(n, data, max_size, fault):
+        out = common.RecStream()
+        t = GT(out_command=out, out_display=common.RecStream(), in_response=io.BytesIO(), in_userinput=io.BytesIO(), num_tmux_layers=n, max_command_size=None)
+        kind, k = fault
+        exc = {"EIO": OSError(5, "Input/output error"), "KeyboardInterrupt": KeyboardInterrupt(), "ValueError": ValueError("closed file")}
+        raised = None
+        # the limit is the one that gives the same payload split for every n: the template's length is added
+        limit = max_size + len(t.get_graphics_command_template())
+        try:
+            if kind == "callback":
+                calls = []
+
+                def cb(c):
+                    calls.append(c)
+                    if len(calls) == k:
+                        raise exc["EIO"]
+                gc.TransmitCommand(image_id=77, medium=gc.TransmissionMedium.DIRECT, format=gc.Format.PNG, data=data).send(
+                    out, template=t.get_graphics_command_template(), max_size=limit, callback=cb)
+            else:
+                t.max_command_size = limit
+                t.send_command(gc.TransmitCommand(image_id=77, medium=gc.TransmissionMedium.DIRECT,
+                                                  format=gc.Format.PNG, data=_FailingData(data, k, exc[kind])))
+        except BaseException as e:  # noqa: BLE001
+            raised = type(e).__name__
+        return out.writes, raised
+
+    reqs, meta = [], []
+    for _ in range(ctx.pick(40, 400)):
+        max_size = rng.choice([64, 100, 300])
+        nchunks = rng.randrange(2, 7)
+        payload_per_chunk = ((max_size - 40) // 4) * 3
+        data = rng.randbytes(payload_per_chunk * nchunks + rng.randrange(0, 5))
+        fault = rng.choice([("EIO", rng.randrange(1, nchunks + 3)), ("KeyboardInterrupt", rng.randrange(2, nchunks + 2)), ("ValueError", rng.randrange(2, nchunks + 2)),
+                            ("callback", rng.randrange(1, nchunks + 1))])
+        plain, raised0 = attempt(0, data, max_size, fault)
+        for n in (1, 2, 3):
+            wrapped, raised = attempt(n, data, max_size, fault)
+            case = {"layers": n, "fault": list(fault), "data_len": len(data), "max_size": max_size, "writes": len(wrapped), "writes_without_tmux": len(plain), "raised": raised}
+            cov.add(case, klass=f"faulted/{fault[0]}/n={n}/" + ("raised" if raised else "completed"))
+            if len(wrapped) != len(plain) or raised != raised0:
+                ctx.violations.append({"signature": {"class": "tmux-unwrap-mismatch", "layers": n, "scenario": "transmission failing under way"},
+                                       "what": f"a chunked transmission failing under way ({fault[0]} at step {fault[1]}): {len(wrapped)} writes reach the command stream with {n} tmux layer(s) "
+                                               f"configured, {len(plain)} with none (raised: {raised} / {raised0})",
+                                       "case": {"kind": "faulted", **case, "written": [hexs(w)[:300] for w in wrapped[-2:]]}})
+                continue
+            for w, p0 in zip(wrapped, plain):
+                reqs.append(f"c11.spec_layers_ok {n} {hexs(w)} {hexs(p0)}")
+                meta.append((case, w, p0))
+    for (case, w, p0), ok in zip(meta, model.batch(reqs)):
+        if ok != "1":
+            ctx.violations.append({"signature": {"class": "tmux-unwrap-mismatch", "layers": case["layers"], "scenario": "transmission failing under way"},
+                                   "what": f"a chunked transmission failing under way ({case['fault'][0]} at step {case['fault'][1]}): removing {case['layers']} tmux layer(s) from a write "
+                                           "does not give the write made with no tmux configured",
+                                   "case": {"kind": "emit", "layers": case["layers"], "written": hexs(w), "expected_plain": hexs(p0), "scenario": case}})
+            break
+
+
 def check_reconfiguration(ctx, model, tup, cov):
     """One terminal object used for several commands while its layer count changes in between (attribute
     assignment, detect_tmux under a changed environment, clone_with): every command must be wrapped with the layer
@@ -362,6 +441,7 @@ def run(ctx, model):
     common.scrub_process_env()
     tup = common.import_impl()
     check_emission(ctx, model, tup, cov)
+    check_faulted(ctx, model, tup, cov)
     check_reconfiguration(ctx, model, tup, cov)
     check_detection(ctx, model, tup, cov)
     check_highlevel_explicit(ctx, model, cov)
